@@ -24,6 +24,8 @@ def selections(cx):
     for fn in cx.crate.fns:
         if len(fn.module.path) < 2 or fn.module.path[0] != 'trait_handlers' or (len(fn.module.path) >= 3 and fn.module.path[2] == 'models'):
             continue
+        if id(fn) in getattr(cx.crate, 'fully_inlined', ()):
+            continue        # a search extracted into a private helper is judged where it is used (inlined copy in the caller)
         fw = cx.fw(fn)
         for d in fw.defs:
             if d.kind == 'let' and d.mutable and d.init is not None and d.init['k'] == 'Path' and d.init['path']['s'] == 'None' and d.assigns:
